@@ -115,7 +115,7 @@ func newRig(o rigOpts) (*rig, error) {
 	for _, c := range co {
 		opts = append(opts, hsmsss.WithConnectionOption(c))
 	}
-	cfg, err := hsmsss.NewConfig("127.0.0.1", port, opts...)
+	cfg, err := hsmsss.NewConfig(peer.LoopHost, port, opts...)
 	if err != nil {
 		return nil, fmt.Errorf("NewConfig: %w", err)
 	}
